@@ -278,6 +278,12 @@ func c01Compare(c *core.Ctx, via string, got []*rules.NetworkRule, want []string
 		w.Extra = extra
 		c.Violation("spurious-rule:"+via, nil, w, "%s returned non-matching rule(s) %q for request %s", via, extra, c01Short(w.Request))
 	}
+	// (Multiplicity is deliberately not judged: the statement is about sets, and
+	// the unchanged $domain index itself returns a rule once per listed value
+	// that applies, e.g. twice for "$domain=a.com|a.com".)
+	if len(w.Lists) > 0 && len(util.MoreOftenThanListed(util.Texts(got), w.Lists...)) > 0 {
+		c.Event("answers_with_a_rule_more_often_than_listed", 1)
+	}
 }
 
 var (
